@@ -53,6 +53,37 @@ def kappa(A):
     return max(1.0, ninf(A) * ninf(Ai)), Ai
 
 
+def kappa_eq(A):
+    """condition number and inverse in equilibrated coordinates d_a = sqrt(|A_aa|): (kappa_inf(D^-1 A D^-1), A^-1, d).
+    A channel whose variance is many orders of magnitude above the others (a masked channel) then counts with the
+    conditioning of the correlation structure, not with the ratio of the units — as the closed-form / LU inverses of a
+    symmetric positive definite matrix behave (their errors are invariant under a symmetric diagonal scaling up to
+    the pivot order)."""
+    n = len(A)
+    d = [math.sqrt(abs(float(A[a][a]))) or 1.0 for a in range(n)]
+    Ae = [[float(A[a][b]) / (d[a] * d[b]) for b in range(n)] for a in range(n)]
+    Aei = finv(Ae)
+    if Aei is None:
+        return float("inf"), None, d, None
+    Ai = [[Aei[a][b] / (d[a] * d[b]) for b in range(n)] for a in range(n)]
+    return max(1.0, ninf(Ae) * ninf(Aei)), Ai, d, Aei
+
+
+def kappa_col(A):
+    """kappa_inf of A with every column scaled to unit maximum.  Eigen's inverse() / determinant() of a matrix larger
+    than 4 x 4 go through LU with partial (row) pivoting, whose pivot choice and rounding errors are invariant under
+    column scalings but not under row scalings: a masked channel that is *coupled* to the ordinary ones
+    (covariance ~ sqrt(1e15 * r) next to variances r) makes the standard correction lose digits (observed 1e-10 where
+    the serial one, inverting 3 x 3 blocks in closed form, keeps 1e-17), an uncoupled one does not."""
+    n = len(A)
+    dc = [max(abs(float(A[a][b])) for a in range(n)) or 1.0 for b in range(n)]
+    Ae = [[float(A[a][b]) / dc[b] for b in range(n)] for a in range(n)]
+    Aei = finv(Ae)
+    if Aei is None:
+        return float("inf")
+    return max(1.0, ninf(Ae) * ninf(Aei))
+
+
 def fabs(A):
     return [[abs(float(x)) for x in row] for row in A]
 
@@ -93,6 +124,66 @@ def gen_ut(r, n, style):
     return 1.0, 2.0, 0.0
 
 
+def masked_block(g, r, w, noise, chans, big, rho):
+    """a w x w noise block whose channels `chans` are masked (disabled by a huge variance `big`, the same in every
+    block) while the remaining channels carry an ordinary, distinct SPD block: such blocks agree with one another
+    to ~noise/big of their norm and are nevertheless different where it matters"""
+    rest = [a for a in range(w) if a not in chans]
+    sub = g.spd(len(rest), cond=10 ** r.uniform(0.3, 1.5), scale=noise * 10 ** r.uniform(-0.5, 0.5)) if rest else []
+    blk = vlib.mzeros(w, w)
+    for ia, a in enumerate(rest):
+        for ib, b in enumerate(rest):
+            blk[a][b] = sub[ia][ib]
+    for a in chans:
+        blk[a][a] = big
+        for b in rest:
+            if rho:
+                # a weak correlation between the masked and an ordinary channel (the block stays positive definite)
+                blk[a][b] = blk[b][a] = rho * r.uniform(-1, 1) * math.sqrt(big * blk[b][b]) / w
+    return blk
+
+
+def special_blocks(g, r, spec):
+    """full block-diagonal noise covariances whose consecutive diagonal blocks are equal / equal relative to their norm
+    / different, in every position"""
+    bs, mszmax, noise = spec["bs"], spec["mszmax"], spec["noise"]
+    nbk = (mszmax + bs - 1) // bs
+    R = vlib.mzeros(mszmax, mszmax)
+    blocks = []
+    if spec["rstyle"] == "masked":
+        big = noise * 10 ** r.choice([12.0, 15.0, 16.0, r.uniform(11, 17)])
+        nm = 1 if (bs <= 2 or r.random() < 0.7) else 2
+        chans = r.sample(range(bs), nm)
+        rho = r.choice([0.0, 0.0, 0.0, 0.1])
+        for i in range(nbk):
+            if i > 0 and r.random() < 0.15:
+                blocks.append([row[:] for row in blocks[-1]])      # sometimes exactly the previous block
+            else:
+                blocks.append(masked_block(g, r, bs, noise, chans if r.random() < 0.85 else r.sample(range(bs), nm), big, rho))
+    else:
+        # two or three distinct blocks A, B, C and near copies (relative 1e-13 .. 1e-9) in a random arrangement:
+        # A A B, A B B, A B A, A A' B ...; every position sees an equal and a different predecessor over the run
+        pool = [g.spd(bs, cond=10 ** r.uniform(0.3, 2.5), scale=noise * 10 ** r.uniform(-0.5, 0.5)) for _ in range(r.choice([2, 2, 3]))]
+        prev = None
+        for i in range(nbk):
+            u = r.random()
+            if prev is not None and u < 0.4:
+                blk = [row[:] for row in prev]
+            elif prev is not None and u < 0.55:
+                e = r.choice([1e-13, 1e-11, 1e-9])
+                blk = [[v * (1 + e) for v in row] for row in prev]
+            else:
+                blk = [row[:] for row in r.choice(pool)]
+            blocks.append(blk)
+            prev = blk
+    for i, blk in enumerate(blocks):
+        w = min(bs, mszmax - bs * i)
+        for a in range(w):
+            for c in range(w):
+                R[bs * i + a][bs * i + c] = blk[a][c]
+    return R
+
+
 def make_object(g, r, spec):
     """build one object (harness line + single-call lines) from a spec dict:
     n, nc, bs, red, mszmax, ut, mv, noise, xscale, yscale, calls = [dict(k, msz, kind, fail, rscale, toggle, dup)]"""
@@ -102,6 +193,8 @@ def make_object(g, r, spec):
     noise = spec["noise"]
     if red:
         R = g.spd(bs, cond=10 ** r.uniform(0.3, 2.5), scale=noise)
+        if spec.get("rstyle") == "masked":
+            R = masked_block(g, r, bs, noise, [r.randrange(bs)], noise * 1e15, 0.0)
     elif spec.get("blockdiag", True):
         R = vlib.mzeros(mszmax, mszmax)
         for i in range((mszmax + bs - 1) // bs):
@@ -117,6 +210,8 @@ def make_object(g, r, spec):
                     R[bs * i + a][bs * i + c] = blk[a][c]
     else:
         R = g.spd(mszmax, cond=10.0, scale=noise)
+    if not red and spec.get("rstyle") in ("masked", "blockpattern"):
+        R = special_blocks(g, r, spec)
     R = [[v * ys * ys for v in row] for row in R]
     H = [[r.uniform(-1.5, 1.5) * ys / xs for _ in range(n)] for _ in range(mszmax)]
     h0 = [r.uniform(-1, 1) * ys for _ in range(mszmax)]
@@ -128,6 +223,10 @@ def make_object(g, r, spec):
     for cs in spec["calls"]:
         k, msz, kind, fail = cs["k"], cs["msz"], cs["kind"], cs["fail"]
         means = [[r.uniform(-2, 2) * xs for _ in range(n)] for _ in range(k)]
+        if spec.get("farmean"):
+            # means far from the origin relative to the spread (|m| / sqrt(P) = 1e3 .. 1e7)
+            far = [r.choice([-1, 1]) * spec["farmean"] * r.uniform(0.5, 1) for _ in range(n)]
+            means = [[v + f for v, f in zip(mm, far)] for mm in means]
         Ps = [[[v * xs * xs for v in row] for row in g.spd(n, cond=10 ** r.uniform(0, 3), scale=10 ** r.uniform(-1.5, 0.3))] for _ in range(k)]
         if cs.get("dup") and k >= 2:
             # near-duplicate components: equal, or equal up to a relative 1e-9 / one weak direction
@@ -170,7 +269,12 @@ def gen_case(g, tier, idx):
     r = g.r
     mmax = 12 if tier == "quick" else 18
     style = r.choice(["full", "full", "reduced", "reduced", "nondividing", "nondividing", "exactsqrt", "smallnoise", "affine", "fault", "wc0zero",
-                      "scalar", "circular", "circular", "varsize", "varsize", "scaled", "scaled", "dupcomp", "manyblocks", "moved", "nullinnov", "nullinnov", "samediag"])
+                      "scalar", "circular", "circular", "varsize", "varsize", "scaled", "scaled", "dupcomp", "manyblocks", "moved", "nullinnov", "nullinnov", "samediag",
+                      "masked", "masked", "blockpattern", "farmean"])
+    if idx in (20, 21):
+        style = "masked"          # every run has them, whatever the seed
+    if idx == 22:
+        style = "blockpattern"
     n = idx % 4 + 1 if idx < 8 else r.randint(1, 4)
     nc = r.randint(1, n) if style == "circular" else 0      # the last nc state rows are Euler angles
     bs = [1, 2, 3, 5, 6, 3, 2, 1][idx % 8] if idx < 16 else r.choice([1, 2, 2, 3, 3, 5, 6])
@@ -234,13 +338,27 @@ def gen_case(g, tier, idx):
         kind = 0
         for cs in calls:
             cs["kind"] = 0
+    if style == "farmean":
+        kind = r.choice([0, 0, 1])
+        for cs in calls:
+            cs["kind"] = kind
     if style == "samediag":
         bs = r.choice([2, 3])
         nb = r.randint(2, max(2, min(4, mmax // bs)))
         msz, red = nb * bs, 0
         for cs in calls:
             cs["msz"] = msz
-    spec = {"n": n, "nc": nc, "bs": bs, "red": red, "mszmax": msz, "ut": ut, "noise": noise, "xscale": xscale, "yscale": yscale,
+    rstyle = None
+    if style in ("masked", "blockpattern"):
+        # full noise covariance, >= 2 (pattern: >= 3) sub-measurements, consecutive blocks equal relative to their norm
+        bs = r.choice([2, 3, 3, 5, 6]) if style == "masked" else r.choice([1, 2, 2, 3])
+        lo = 2 if style == "masked" else 3
+        nb = r.randint(lo, max(lo, min(6, mmax // bs)))
+        msz, red, rstyle = nb * bs, (1 if (style == "masked" and r.random() < 0.15) else 0), style
+        for cs in calls:
+            cs["msz"] = msz
+    spec = {"n": n, "nc": nc, "bs": bs, "red": red, "mszmax": msz, "ut": ut, "noise": noise, "xscale": xscale, "yscale": yscale, "rstyle": rstyle,
+            "farmean": (10 ** r.uniform(3, 7)) if style == "farmean" else 0.0,
             "mv": r.choice([1, 2]) if style == "moved" else 0, "blockdiag": blockdiag, "samediag": style == "samediag", "calls": calls}
     hline, singles = make_object(g, r, spec)
     meta = {"style": style, "n": n, "nc": nc, "msz": msz, "bs": bs, "red": red, "ks": [c["k"] for c in calls], "kind": kind,
@@ -423,36 +541,54 @@ def tolerances(c, o, i):
     Y = [[(Yp[a][j] - pm[a]) * sq[j] for j in range(s)] for a in range(msz)]
     Xw = [[(X[a][j] - m[a]) * sq[j] for j in range(s)] for a in range(n)]
     S = vlib.madd(vlib.mmul(Y, vlib.mT(Y)), Rf)
-    kS, Si = kappa(S)
+    # every bound is evaluated in equilibrated measurement coordinates d_a = sqrt(S_aa) (noise blocks: sqrt(R_aa)): the
+    # results are invariant under a change of units of the single channels, and so (up to the pivot order) are the
+    # rounding errors of the two algorithms; a tolerance relative to the largest entry of R or S would hide every
+    # channel next to a masked one (variance 1e15)
+    kS, Si, dS, Sei = kappa_eq(S)
+    kS = max(kS, kappa_col(S))
     kR = 1.0
     for bk in blocks[:1] if red else blocks:
-        kR = max(kR, kappa(bk)[0])
-    Ri = finv(Rf)
+        kR = max(kR, kappa_eq(bk)[0], kappa_col(bk))
+    Ri = kappa_eq(Rf)[1]
     Cinv = vlib.madd(vlib.meye(s), vlib.mmul(vlib.mmul(vlib.mT(Y), Ri), Y))
     kC, C = kappa(Cinv)
     Pxy = vlib.mmul(Xw, vlib.mT(Y))
     K = vlib.mmul(Pxy, Si)
+    KD = [[K[a][b] * dS[b] for b in range(msz)] for a in range(n)]          # gain on the equilibrated innovation
+    nue = [nu[a] / dS[a] for a in range(msz)]
     # contract of sigma_point(): the input sigma points reproduce P (hypothesis hX of the theorems)
     Pxx = vlib.mmul(Xw, vlib.mT(Xw))
     hx_err = max(abs(Pxx[a][b] - P[a][b]) for a in range(n) for b in range(n)) / max(ninf(P), 1e-300)
-    nK = ninf(K)
-    tol_cov_u = 64 * EPS * msz * kS * (nK * nK * ninf(S) + ninf(P))
-    tol_cov_s = 64 * EPS * s * (kC + kR) * ninf(Xw) * ninf(vlib.mT(Xw))
+    nK = ninf(KD)
+    nSe = ninf([[S[a][b] / (dS[a] * dS[b]) for b in range(msz)] for a in range(msz)])
+    mmax = max(abs(v) for v in m)
+    # cancellation when the offsets are formed: Yp - pred_mean (each correction computes its own predicted mean: s
+    # roundings of size eps |Yp|) and X = m + sqrt(c P)_j as sigma_point() rounds it (eps |m|); relative to the spread
+    # these are the condition numbers of the offsets (means / predicted measurements far from the origin)
+    ey = max(4 * s * EPS * max(abs(v) for v in Yp[a]) / dS[a] for a in range(msz))
+    rs = math.sqrt(s)
+    far_cov = 4 * ey * (2 * nK * ninf(Xw) + 2 * rs * nK * nK)
+    far_mean = 4 * ey * ((ninf(Xw) + 2 * rs * nK) * msz * ninf(Sei) * max(abs(v) for v in nue) + nK)
+    tol_hx = 4 * EPS * mmax * ninf(Xw) * rs           # |Pxx - P|: the serial correction returns Pxx - ..., the standard one P - ...
+    tol_cov_u = 64 * EPS * msz * kS * (nK * nK * nSe + ninf(P)) + far_cov
+    tol_cov_s = 64 * EPS * s * (kC + kR) * ninf(Xw) * ninf(vlib.mT(Xw)) + far_cov
     d = vlib.mvec(vlib.mmul(vlib.mT(Y), Ri), nu)
-    nnu = max(abs(v) for v in nu)
-    tol_mean_u = 64 * EPS * msz * kS * (nK * nnu + max(abs(v) for v in m) + 1e-300)
-    tol_mean_s = 64 * EPS * s * (kC + kR) * (ninf(Xw) * sum(abs(v) for v in d) * math.sqrt(s) + max(abs(v) for v in m) + 1e-300)
+    nnu = max(abs(v) for v in nue)
+    tol_mean_u = 64 * EPS * msz * kS * (nK * nnu + mmax + 1e-300) + far_mean
+    tol_mean_s = 64 * EPS * s * (kC + kR) * (ninf(Xw) * sum(abs(v) for v in d) * math.sqrt(s) + mmax + 1e-300) + far_mean
     av = [abs(v) for v in nu]
     aSi = fabs(Si)
     bq = sum(av[a] * aSi[a][b] * av[b] for a in range(msz) for b in range(msz))
-    tolL_u = 0.5 * (64 * EPS * msz * kS * bq + logdet_tol(msz, kS))
+    far_lik = ey * msz * ninf(Sei) * (2 * sum(abs(v) for v in nue) + 2 * rs)      # the same cancellation, in nu and in log det S
+    tolL_u = 0.5 * (64 * EPS * msz * kS * bq + logdet_tol(msz, kS)) + far_lik
     T = vlib.mmul(vlib.mmul(vlib.mmul(fabs(Y), fabs(C)), fabs(vlib.mT(Y))), fabs(Ri))
     for a in range(msz):
         T[a][a] += 1.0
     G = vlib.mmul(fabs(Ri), T)
     bqU = sum(av[a] * G[a][b] * av[b] for a in range(msz) for b in range(msz))
-    tolL_s = 0.5 * (64 * EPS * (msz + s) * (kR + kC) * bqU + nb * logdet_tol(bs, kR) + logdet_tol(s, kC))
-    return dict(kS=kS, kC=kC, kR=kR, hx_err=hx_err, tol_cov_u=tol_cov_u, tol_cov_s=tol_cov_s, tol_mean_u=tol_mean_u,
+    tolL_s = 0.5 * (64 * EPS * (msz + s) * (kR + kC) * bqU + nb * logdet_tol(bs, kR) + logdet_tol(s, kC)) + far_lik
+    return dict(kS=kS, kC=kC, kR=kR, hx_err=hx_err, tol_hx=tol_hx, tol_cov_u=tol_cov_u, tol_cov_s=tol_cov_s, tol_mean_u=tol_mean_u,
                 tol_mean_s=tol_mean_s, tolL_u=tolL_u, tolL_s=tolL_s)
 
 
@@ -563,10 +699,11 @@ def check_case(line, meta, hout, dline, dout, stats, notes):
         # property: serial == standard, on the implementation
         e_cov = max(abs(a - b) for a, b in zip(sc[ci], uc[ci]))
         e_mean = max(abs(a - b) for a, b in zip(sm[mi], um[mi]))
-        relrec(stats, "max_relerr_cov_S_vs_U", e_cov, T["tol_cov_s"] + T["tol_cov_u"])
+        tcov = T["tol_cov_s"] + T["tol_cov_u"] + T["tol_hx"]
+        relrec(stats, "max_relerr_cov_S_vs_U", e_cov, tcov)
         relrec(stats, "max_relerr_mean_S_vs_U", e_mean, T["tol_mean_s"] + T["tol_mean_u"])
-        if not (e_cov <= T["tol_cov_s"] + T["tol_cov_u"]):
-            probs.append(("prop", "cov-differs", "component %d: serial covariance differs from the standard one by %.3g (tol %.3g)" % (i, e_cov, T["tol_cov_s"] + T["tol_cov_u"])))
+        if not (e_cov <= tcov):
+            probs.append(("prop", "cov-differs", "component %d: serial covariance differs from the standard one by %.3g (tol %.3g)" % (i, e_cov, tcov)))
         if not (e_mean <= T["tol_mean_s"] + T["tol_mean_u"]):
             probs.append(("prop", "mean-differs", "component %d: serial mean differs from the standard one by %.3g (tol %.3g)" % (i, e_mean, T["tol_mean_s"] + T["tol_mean_u"])))
         tl = T["tolL_s"] + T["tolL_u"]
